@@ -20,6 +20,10 @@ pub struct Item {
     pub text: String,
 }
 
+pub fn catalogue_pub<B: Backend>(rng: &mut Prng, out: &mut Vec<Item>) {
+    catalogue::<B>(rng, out)
+}
+
 fn catalogue<B: Backend>(rng: &mut Prng, out: &mut Vec<Item>) {
     let mut push = |kind: &'static str, text: String| out.push(Item { be: B::NAME, ver: B::VER, kind, text });
     let lk = LocalKey::<B>::random().unwrap();
